@@ -5,13 +5,24 @@ from .gen import ir
 from .e2e import C_PRIM, INT_RANGE, ser, enum_disc
 
 
+def cname(prog, name):
+    """C++ API name of a custom type: `cpp_ns` / `cpp_name` are recorded by the decorator that placed namespace / rename attributes"""
+    it = ir.find_item(prog, name)
+    n = it.get("cpp_name") or name
+    return ("::" + it["cpp_ns"] + "::" + n) if it.get("cpp_ns") else n
+
+
+def mname(m):
+    return m.get("cpp_name") or m["name"]
+
+
 def cpp_type(prog, t):
     """C++ API spelling of a value type (used inside std::optional<...> constructors and span element types)"""
     k = t[0]
     if k == "prim":
         return C_PRIM[t[1]]
     if k in ("enum", "struct"):
-        return t[1]
+        return cname(prog, t[1])
     if k == "slice":
         return "diplomat::span<%s%s>" % ("" if t[2] else "const ", C_PRIM[t[3]])
     if k == "str":
@@ -66,13 +77,13 @@ class CppGen:
         if k == "prim":
             return self.prim(t[1], v)
         if k == "enum":
-            return "%s(%s::%s)" % (t[1], t[1], v)
+            return "%s(%s::%s)" % (cname(self.prog, t[1]), cname(self.prog, t[1]), v)
         if k == "struct":
             it = ir.find_item(self.prog, t[1])
-            return "%s{ %s }" % (t[1], ", ".join(self.arg(f[1], v[f[0]]) for f in it["fields"]))
+            return "%s{ %s }" % (cname(self.prog, t[1]), ", ".join(self.arg(f[1], v[f[0]]) for f in it["fields"]))
         if k == "ref":
             o = self.tmp("o")
-            self.pre.append("std::unique_ptr<%s> %s = %s::dvnew(%du);" % (t[3], o, t[3], v["id"]))
+            self.pre.append("std::unique_ptr<%s> %s = %s::dvnew(%du);" % (cname(self.prog, t[3]), o, cname(self.prog, t[3]), v["id"]))
             return "*%s" % o
         if k == "opt":
             if t[1][0] == "ref":
@@ -89,6 +100,14 @@ class CppGen:
             a = self.tmp("a")
             cty = C_PRIM[p]
             ety = cty if t[2] else "const " + cty
+            if t[1] == "owned":
+                # Rust takes ownership and frees with its allocator: the buffer comes from diplomat_alloc, as for a C caller
+                if n == 0:
+                    return "diplomat::span<%s>((%s*)nullptr, 0)" % (cty, cty)
+                self.pre.append("%s* %s = (%s*)diplomat_alloc(%d * sizeof(%s), alignof(%s));" % (cty, a, cty, n, cty, cty))
+                for i, x in enumerate(v["elems"]):
+                    self.pre.append("%s[%d] = %s;" % (a, i, self.prim(p, x)))
+                return "diplomat::span<%s>(%s, %d)" % (cty, a, n)
             if n == 0:
                 if v.get("null"):
                     return "diplomat::span<%s>((%s*)nullptr, 0)" % (ety, ety)
@@ -100,6 +119,15 @@ class CppGen:
             return "diplomat::span<%s>(%s, %d)" % (ety, a, n)
         if k == "str":
             a = self.tmp("s")
+            if t[1] == "owned":
+                ct, view = ("char16_t", "std::u16string_view") if t[2] == "str16" else ("char", "std::string_view")
+                vals = v["units"] if t[2] == "str16" else v["bytes"]
+                if not vals:
+                    return "%s()" % view
+                self.pre.append("%s* %s = (%s*)diplomat_alloc(%d * sizeof(%s), alignof(%s));" % (ct, a, ct, len(vals), ct, ct))
+                for i, x in enumerate(vals):
+                    self.pre.append("%s[%d] = (%s)0x%x;" % (a, i, ct, x))
+                return "%s(%s, %d)" % (view, a, len(vals))
             if t[2] == "str16":
                 n = len(v["units"])
                 if n == 0:
@@ -195,6 +223,7 @@ template<class T> T& dv_get(T& x) { return x; }
 template<class T> T& dv_get(std::reference_wrapper<T>& x) { return x.get(); }
 extern "C" void dv_log_dump(void);
 extern "C" void dv_drops_dump(void);
+extern "C" void* diplomat_alloc(size_t size, size_t align);
 struct DvDrop { const char* uid; int n; explicit DvDrop(const char* u) : uid(u), n(0) {} ~DvDrop() { printf("cbdrop %s %d\\n", uid, n); } };
 '''
 
@@ -237,15 +266,15 @@ def render_cpp(prog, plan, header_names):
                 else:
                     args.append(g.arg(q[1], c["args"][q[0]]))
             if m["self"] is None:
-                callee = "%s::%s" % (it["name"], m["name"])
+                callee = "%s::%s" % (cname(prog, it["name"]), mname(m))
             elif it["kind"] == "opaque":
                 o = g.tmp("self")
-                g.pre.append("std::unique_ptr<%s> %s = %s::dvnew(%du);" % (it["name"], o, it["name"], c["self"]["id"]))
-                callee = "%s->%s" % (o, m["name"])
+                g.pre.append("std::unique_ptr<%s> %s = %s::dvnew(%du);" % (cname(prog, it["name"]), o, cname(prog, it["name"]), c["self"]["id"]))
+                callee = "%s->%s" % (o, mname(m))
             elif it["kind"] == "enum":
-                callee = "%s(%s::%s).%s" % (it["name"], it["name"], c["self"], m["name"])
+                callee = "%s(%s::%s).%s" % (cname(prog, it["name"]), cname(prog, it["name"]), c["self"], mname(m))
             else:
-                callee = "(%s).%s" % (g.arg(["struct", it["name"], []], c["self"]), m["name"])
+                callee = "(%s).%s" % (g.arg(["struct", it["name"], []], c["self"]), mname(m))
             src += "  {\n"
             for s_ in g.pre:
                 src += "    " + s_ + "\n"
@@ -303,7 +332,10 @@ def build_and_run(art, work, prog, plan, std="c++17", sanitize=True, lib=None, r
     r = tool.run_backend(art, "cpp", entry, os.path.join(work, "cpp"))
     if not r.ok:
         return {"status": "tool-" + r.classify(), "stderr": r.stderr, "rust_src": rust_src, "lib": lib}
-    headers = sorted(h for h in os.listdir(r.outdir) if h.endswith(".hpp") and not h.endswith(".d.hpp") and h != "diplomat_runtime.hpp")
+    headers = []
+    for dp, _, fns in os.walk(r.outdir):
+        headers += [os.path.relpath(os.path.join(dp, h), r.outdir) for h in fns if h.endswith(".hpp") and not h.endswith(".d.hpp") and h != "diplomat_runtime.hpp"]
+    headers.sort()
     src = render_cpp(prog, plan, headers)
     f = os.path.join(work, "driver_%s.cpp" % std.replace("+", "p"))
     open(f, "w").write(src)
